@@ -6,6 +6,8 @@ import GrafeoModel.Driver.Wal
 import GrafeoModel.Driver.Ops
 import GrafeoModel.Driver.Val
 import GrafeoModel.Driver.Exec
+import GrafeoModel.Driver.Lpg
+import GrafeoModel.Driver.Sess
 
 /-!
 `gdriver`: reads op lines `<stream> <op> <arg>*` on stdin, writes one line per op:
@@ -17,6 +19,8 @@ open Grafeo Grafeo.Proto
 structure DState where
   tx : DriverTx.St := {}
   rdf : DriverRdf.St := {}
+  lpg : DriverLpg.St := {}
+  sess : DriverSess.St := {}
 
 def dispatch (st : DState) (line : String) : DState × String :=
   let toks := (line.trimAscii.toString.splitOn " ").filter (· ≠ "")
@@ -46,6 +50,14 @@ def dispatch (st : DState) (line : String) : DState × String :=
     else if stream == "tx" then
       match DriverTx.handle st.tx args with
       | some (t', o) => ({ st with tx := t' }, o.render)
+      | none => (st, "bad-op")
+    else if stream == "lpg" then
+      match DriverLpg.handle st.lpg args with
+      | some (t', o) => ({ st with lpg := t' }, o.render)
+      | none => (st, "bad-op")
+    else if stream == "sess" then
+      match DriverSess.handle st.sess args with
+      | some (t', o) => ({ st with sess := t' }, o.render)
       | none => (st, "bad-op")
     else if stream == "rdf" then
       match DriverRdf.handle st.rdf args with
